@@ -98,6 +98,10 @@ static enum eventloop_return error_function(struct io_event *ev)
 static enum eventloop_return read_function(struct io_event *ev)
 {
 	struct buffered_socket *bs = container_of(ev, struct buffered_socket, ev);
+	if (unlikely(bs->broken)) {
+		error_function(ev);
+		return EL_CONTINUE_LOOP;
+	}
 	int ret = go_reading(bs);
 	if (unlikely((ret < 0) && (ret != BS_IO_WOULD_BLOCK))) {
 		error_function(ev);
@@ -113,6 +117,10 @@ static enum eventloop_return write_function(struct io_event *ev)
 {
 	struct buffered_socket *bs = container_of(ev, struct buffered_socket, ev);
 
+	if (unlikely(bs->broken)) {
+		error_function(ev);
+		return EL_CONTINUE_LOOP;
+	}
 	int ret = send_buffer(bs);
 	if (unlikely(ret < 0)) {
 		error_function(ev);
@@ -315,6 +323,7 @@ void buffered_socket_init(struct buffered_socket *bs, socket_type sock, struct e
 	bs->ev.loop = loop;
 
 	bs->to_write = 0;
+	bs->broken = false;
 	bs->read_ptr = bs->read_buffer;
 	bs->write_ptr = bs->read_buffer;
 
@@ -337,9 +346,15 @@ int buffered_socket_writev(void *this_ptr, struct socket_io_vector *io_vec, unsi
 	struct buffered_socket *bs = (struct buffered_socket *)this_ptr;
 	size_t to_write = bs->to_write;
 
-	for (unsigned int i = 0; i < count; i++) {
-		to_write += io_vec[i].iov_len;
+	if (unlikely(bs->broken)) {
+		return -1;
 	}
+
+	size_t frame_length = 0;
+	for (unsigned int i = 0; i < count; i++) {
+		frame_length += io_vec[i].iov_len;
+	}
+	to_write += frame_length;
 
 	cjet_ssize_t sent = socket_writev_with_prefix(bs->ev.sock, bs->write_buffer, bs->to_write, io_vec, count);
 	if (likely(sent == (cjet_ssize_t)to_write)) {
@@ -370,6 +385,22 @@ int buffered_socket_writev(void *this_ptr, struct socket_io_vector *io_vec, unsi
 		io_vec_written = written - bs->to_write;
 		bs->to_write = 0;
 	}
+
+	/*
+	 * A frame is only queued as a whole. If the rest of it does not
+	 * fit it is refused before any of its bytes is queued. If a part
+	 * of it is already on the wire the byte stream can not be
+	 * continued at all: nothing else is sent and the socket is closed
+	 * when the event loop sees it next.
+	 */
+	if (unlikely((frame_length - io_vec_written) > (CONFIG_MAX_WRITE_BUFFER_SIZE - bs->to_write))) {
+		log_err("not enough space left in write buffer for %zu bytes!", frame_length - io_vec_written);
+		if (io_vec_written > 0) {
+			bs->broken = true;
+		}
+		return -1;
+	}
+
 	if (unlikely(copy_iovec_to_write_buffer(bs, io_vec, count, io_vec_written) < 0)) {
 		return -1;
 	}
